@@ -208,6 +208,12 @@ static std::string family(const char *name)
     return n;
 }
 
+static inline bool units_equal(const Out &o, const ref::Expect &e)
+{
+    if (o.n != e.units.size()) return false;
+    return o.n == 0 || memcmp(o.u, e.units.data(), o.n * sizeof(uint32_t)) == 0;
+}
+
 static const char *input_class(const ref::Expect &e)
 {
     if (e.has_bad) return e.has_tolerated ? "malformed+tolerated" : "malformed";
@@ -299,7 +305,7 @@ static void run_case(Ctx &c, ref::Enc senc, const U32V &src, const RunOpts &ro)
                     if (out.kind != vf::EX_UNICODE) c.fail(strf("c01:%s:latin1-out-of-range-not-raised", where.c_str()), detail());
                 } else if (out.kind != vf::OK) {
                     c.fail(strf("c01:%s:%s-on-well-formed-input", where.c_str(), vf::outkind_name(out.kind)), detail());
-                } else if (out.n != e->units.size() || memcmp(out.u, e->units.data(), out.n * 4) != 0) {
+                } else if (!units_equal(out, *e)) {
                     c.fail(strf("c01:%s:wrong-units", where.c_str()), detail());
                 } else if (!out.term) {
                     c.fail(strf("c01:%s:no-terminator", where.c_str()), detail());
@@ -324,8 +330,7 @@ static void run_case(Ctx &c, ref::Enc senc, const U32V &src, const RunOpts &ro)
                     c.fail(strf("c02:%s:%s:accepted-invalid", where.c_str(), mname), detail());
                 } else if (!e->throws && out.kind == vf::EX_UNICODE) {
                     c.fail(strf("c02:%s:%s:rejected-%s", where.c_str(), mname, icls), detail());
-                } else if (out.kind == vf::OK && !e->content_unspecified &&
-                           (out.n != e->units.size() || memcmp(out.u, e->units.data(), out.n * 4) != 0)) {
+                } else if (out.kind == vf::OK && !e->content_unspecified && !units_equal(out, *e)) {
                     c.fail(strf("c02:%s:%s:wrong-result", where.c_str(), mname), detail());
                 } else if (out.kind == vf::OK && eff == ref::SUBST && !e->has_tolerated && tgt_enc(tgt) != ref::EL1 &&
                            (r.flags & F_MODE)) {
